@@ -106,7 +106,7 @@ func leaks(out string, nd []string) string {
 	return ""
 }
 
-var secretClasses = []string{"token", "format-directives", "contains-marker", "unicode", "quotes-newlines", "long", "yaml-special", "only-percent"}
+var secretClasses = []string{"token", "format-directives", "contains-marker", "unicode", "quotes-newlines", "long", "yaml-special", "only-percent", "whitespace-edges"}
 
 func mkSecret(rng *rand.Rand, class string) string {
 	const al = "abcdefghijkmnpqrstuvwxyzABCDEFGHJKLMNPQRSTUVWXYZ23456789"
@@ -130,6 +130,10 @@ func mkSecret(rng *rand.Rand, class string) string {
 		return tok(5) + []string{"\"", "'", "\n", "\t\\", "`", "\x00"}[rng.Intn(6)] + tok(8)
 	case "long":
 		return tok(200 + rng.Intn(200))
+	case "whitespace-edges":
+		// leading / trailing (unicode) white space is part of the secret and must survive unmarshalling
+		ws := []string{" ", "\t", "\n", "\r\n", "\u00a0", "\u2003", "  "}
+		return ws[rng.Intn(len(ws))] + tok(10) + ws[rng.Intn(len(ws))]
 	case "yaml-special":
 		return []string{": ", "- ", "{", "#", "!!", "&a "}[rng.Intn(6)] + tok(12)
 	default:
@@ -328,11 +332,56 @@ func positives(c *driver.Ctx, sec string) {
 	if string(got.S) != sec || string(got.M["k"]) != sec || len(got.L) != 1 || string(got.L[0]) != sec || got.P == nil || string(*got.P) != sec {
 		c.Violation("unmarshal", "confmap.Unmarshal did not store the secret unchanged", map[string]any{"secret": sec, "got": fmt.Sprintf("%q %q", string(got.S), string(got.M["k"]))}, "path", "confmap.Unmarshal")
 	}
-	c.Observe("positives_checked", 2)
+	// other decoders that honour encoding.TextUnmarshaler must store the secret unchanged as well
+	var viaJSON struct {
+		S configopaque.String            `json:"s"`
+		M map[string]configopaque.String `json:"m"`
+	}
+	jb, _ := json.Marshal(map[string]any{"s": sec, "m": map[string]string{"k": sec}})
+	if err := json.Unmarshal(jb, &viaJSON); err != nil || string(viaJSON.S) != sec || string(viaJSON.M["k"]) != sec {
+		c.Violation("unmarshal", "encoding/json did not store the secret unchanged", map[string]any{"secret": sec, "got": string(viaJSON.S), "err": fmt.Sprint(err)}, "path", "json.Unmarshal")
+	}
+	// (control: a plain string field decoded from the same document — yaml.v3's own marshal/unmarshal is not
+	// symmetric for some strings, e.g. a leading newline, which is no concern of the opaque type)
+	var viaYAML struct {
+		S configopaque.String `yaml:"s"`
+		P string              `yaml:"p"`
+	}
+	yb, _ := yaml3.Marshal(map[string]string{"s": sec, "p": sec})
+	if err := yaml3.Unmarshal(yb, &viaYAML); err != nil || string(viaYAML.S) != viaYAML.P {
+		c.Violation("unmarshal", "yaml.v3 stored something else in the opaque field than in a plain string field", map[string]any{"secret": sec, "got": string(viaYAML.S), "plain": viaYAML.P, "err": fmt.Sprint(err)}, "path", "yaml.Unmarshal")
+	}
+	// the rendering must not depend on what an earlier caller did with the bytes it was handed
+	for _, path := range []string{"MarshalText", "MarshalBinary"} {
+		get := s.MarshalText
+		if path == "MarshalBinary" {
+			get = s.MarshalBinary
+		}
+		b1, _ := get()
+		for i := range b1 {
+			b1[i] = 'X'
+		}
+		b1 = append(b1[:0], sec...)
+		_ = b1
+		b2, _ := get()
+		jb2, _ := json.Marshal(struct{ S configopaque.String }{s})
+		yb2, _ := yaml3.Marshal(struct{ S configopaque.String }{s})
+		cm := confmap.New()
+		_ = cm.Marshal(struct {
+			S configopaque.String `mapstructure:"s"`
+		}{s})
+		for name, out := range map[string]string{path: string(b2), "json": string(jb2), "yaml": string(yb2), "confmap": fmt.Sprint(cm.ToStringMap())} {
+			if !strings.Contains(out, marker) || (sec != "" && strings.Contains(out, sec)) {
+				c.Violation("marker", fmt.Sprintf("after a caller overwrote the bytes returned by %s, the %s rendering is %q", path, name, out),
+					map[string]any{"secret": sec, "after": path, "rendering": name, "output": out}, "path", "aliasing", "detail", path, "container", name)
+			}
+		}
+	}
+	c.Observe("positives_checked", 6)
 }
 
 func run(c *driver.Ctx) {
-	n := int64(c.N(2, 30)) // secrets per shard; every secret runs the complete grid
+	n := int64(c.N(6, 60)) // secrets per shard; every secret runs the complete grid
 	for i := int64(0); i < n; i++ {
 		if !c.Want(i) {
 			continue
@@ -400,7 +449,7 @@ func main() {
 	driver.Main(driver.Spec{
 		ID:    "C14",
 		Level: "exploration",
-		Rule: "a case is one (rendering path, exact format/function, container, secret class); the fmt verb x flag x width grid (24 verbs x 13 flag sets x 8 width/precision forms x 17 containers, plus Fprintf/Errorf/Appendf/Sprint*) is enumerated completely for every generated secret; " +
+		Rule: "a case is one (rendering path, exact format/function, container, secret class); the fmt verb x flag x width grid (24 verbs x 13 flag sets x 8 width/precision forms x 17 containers, plus Fprintf/Errorf/Appendf/Sprint*) is enumerated completely for every generated secret (9 secret classes incl. format directives, the marker itself, unicode, white space at the edges); per secret also: string(s) returns it, confmap / encoding/json / yaml.v3 unmarshalling store it unchanged, and renderings are unaffected by a caller overwriting the bytes MarshalText/MarshalBinary returned; " +
 			"every case is non-trivial (a secret is present in the rendered value); distinct = distinct (path, format, container, secret class)",
 		Assumptions: []string{
 			"containers are the positions a configuration can have: exported struct fields, pointers, slices, arrays, map values, map keys, interfaces; unexported fields are excluded (fmt cannot call methods on them and mapstructure cannot populate them)",
